@@ -46,8 +46,10 @@ impl<'a> StringLexer<'a> {
 
     /// (mostly just used by Iterator, but might be useful)
     pub fn next_lexeme(&mut self) -> Result<Option<u8>> {
+        // a loop rather than recursion: a string may consist of any number of escaped line ends
+        loop {
         let c = self.next_byte()?;
-        match c {
+        return match c {
             b'\\' => {
                 let c = self.next_byte()?;
                 Ok(
@@ -64,14 +66,14 @@ impl<'a> StringLexer<'a> {
                         if let Ok(b'\r') = self.peek_byte() {
                             let _ = self.next_byte();
                         }
-                        self.next_lexeme()?
+                        continue;
                     }
                     b'\r' => {
                         // ignore end-of-line marker
                         if let Ok(b'\n') = self.peek_byte() {
                             let _ = self.next_byte();
                         }
-                        self.next_lexeme()?
+                        continue;
                     }
                     b'\\' => Some(b'\\'),
 
@@ -111,6 +113,7 @@ impl<'a> StringLexer<'a> {
 
             c => Ok(Some(c))
 
+        };
         }
     }
 
